@@ -9,14 +9,15 @@ import walk_gen
 
 META = {
     'theorem_files': ['Props/C09.v'],
-    'theorems': [],
+    'theorems': ['C09_no_loss_no_reorder_partial', 'C09_unrestricted_is_false'],
     'trusted_base': [
         'Coq 8.16.1 kernel; no native_compute',
         'Model/Context.v, CtxReader.v (+ Reader, Walker, MapTree): hand transcription of x12context.py — tied by this run '
         '(iter_segments on generated documents and loop ids: model text vs implementation text)',
         'extraction (ExtrOcamlBasic only) + ocaml/driver.ml',
     ],
-    'assumptions': [],
+    'assumptions': ['theorem premise: no loop node is inserted before an older sibling during the run (holds whenever sibling loops have '
+                    'distinct ids, as far as I could probe; not proved from a map-level condition)'],
 }
 
 
